@@ -160,6 +160,14 @@ CONTRACTS[NC + "__getitem__"] = dict(
                 for k, v in d.items()) for d in _idx_split("self.notes", "Note")],
     split_is_domain=True, properties=["C12"], inline=True, battery="nc_index")
 
+# 'note in container': a note of the same PITCH is in it (Note equality is pitch equality, spelling does not matter)
+CONTRACTS[NC + "__contains__"] = dict(
+    params={"self": "NoteContainer", "item": "Note"},
+    requires="is_name(item.name) and all([is_name(n.name) for n in self.notes])", returns="bool", modifies=[],
+    ensures=[("some-note-of-the-same-pitch", "result == any([pitch(n) == pitch(item) for n in self.notes])")],
+    split=_SZ, split_is_domain=True, properties=["C12"], battery="nc_contains",
+    notes="domain: containers of 0..3 notes in any order, arbitrary names and octaves")
+
 CLASSES["BlankNC"] = {"class": "mingus.containers.note_container.NoteContainer", "fields": {}}
 CONTRACTS[NC + "__init__"] = dict(
     params={"self": "BlankNC", "notes": "None"}, returns="None", requires="is_None(notes)",
